@@ -158,17 +158,19 @@ Note(r, m) == [r EXCEPT !.sawBad = @ \/ (m.c = "auth" /\ r.fsm # "Ok" /\ m \noti
 Quiet(r) == [r EXCEPT !.out = Cat(r.out, <<>>), !.dlv = Cat(r.dlv, <<>>)]
 \* what a relayed digest is worth: right iff some client-side session signed this session's challenge
 Waiting(s) == ss[s].role = "server" /\ ss[s].alive /\ ss[s].fsm = "WaitingOnClientChallengeReply"
+\* admitted, not required: with Reflection a relayed digest MAY be the right one (both outcomes are behaviours)
 Eff(s, m) == IF m.c = "auth" /\ m.p = "reflected"
-               THEN [m EXCEPT !.p = IF Reflection /\ \E t \in Sessions : s \in ss[t].lent THEN "good" ELSE "bad"]
-               ELSE m
+               THEN {[m EXCEPT !.p = "bad"]} \cup
+                    (IF Reflection /\ \E t \in Sessions : s \in ss[t].lent THEN {[m EXCEPT !.p = "good"]} ELSE {})
+               ELSE {m}
 Lend(s, m, r) == IF m.c = "auth" /\ m.k = "SCh" /\ m.p = "reflect" /\ r.role = "client" /\ r.fsm = "WaitingForServerChallenge"
                    THEN [r EXCEPT !.lent = {t \in Sessions : Waiting(t)}] ELSE r
-Reflected(s, m) == m.c = "auth" /\ m.p = "reflected" /\ Eff(s, m).p = "good"
+Reflected(s, m) == m.c = "auth" /\ m.p = "reflected" /\ [m EXCEPT !.p = "good"] \in Eff(s, m)
 Recv(s, m0) ==
   /\ ss[s].role # "none"
   /\ IF ~ss[s].alive THEN UNCHANGED vars
-     ELSE LET m == Eff(s, m0)
-              r == Lend(s, m0, Note(ss[s], m)) IN
+     ELSE \E m \in Eff(s, m0) :
+          LET r == Lend(s, m0, Note(ss[s], m)) IN
           CASE m.c = "x" -> Set(s, Dead([Quiet(r) EXCEPT !.ownFault = TRUE]))
             [] m.c = "auth" -> IF r.fsm = "Ok" THEN Set(s, Quiet(r))
                                ELSE IF r.role = "server" THEN AuthServer(s, m, r) ELSE AuthClient(s, m, r)
